@@ -1,5 +1,6 @@
 import SafeC.Proofs.StpAll
 import SafeC.Proofs.FldSteps
+import SafeC.Proofs.CatOverlap
 import SafeC.Props.C07Ext
 /-!
 # C07 (extension 2) — `stpcpy_s` / `stpncpy_s` and the field copies: every placement of `src` relative to `dest`
@@ -21,7 +22,7 @@ namespace SafeC.Props.C07
 open SafeC Gen
 
 /-- the distance between two different pointers -/
-theorem gap_of_ne (dest src : Nat) (hne : dest ≠ src) :
+private theorem gap_of_ne (dest src : Nat) (hne : dest ≠ src) :
     ∃ g, 0 < g ∧ ((dest < src ∧ src = dest + g) ∨ (src < dest ∧ dest = src + g)) := by
   by_cases h : dest < src
   · exact ⟨src - dest, by omega, Or.inl ⟨h, by omega⟩⟩
@@ -180,7 +181,7 @@ example : ∃ st : St, (∀ a, st.mapped a = true ∧ st.rd a = true) ∧ RW st 
 
 /-! ## the field copies -/
 
-theorem ovrlpPost_of_fld {kind : FldKind} {cfg : Cfg} {dest dmax src slen : Nat} {st st' : St}
+private theorem ovrlpPost_of_fld {kind : FldKind} {cfg : Cfg} {dest dmax src slen : Nat} {st st' : St}
     (hp : FldPost kind cfg dest dmax src slen st st' ESOVRLP) : OvrlpPost cfg dest dmax st st' :=
   ⟨hp.safe.strays, hp.safe.fail_events ESOVRLP_ne_EOK, hp.fail_first ESOVRLP_ne_EOK,
     hp.fail_clear (Or.inr rfl), hp.safe.frame⟩
@@ -235,5 +236,49 @@ example : ∃ st : St, (∀ a, st.mapped a = true ∧ st.rd a = true) ∧ RW st 
     (∀ j, j < 2 → st.data (101 + j) ≠ 0) ∧ ((2 : Nat) = 2 ∨ st.data (101 + 2) = 0) :=
   ⟨{ data := fun _ => 7, mapped := fun _ => true, rd := fun _ => true, wr := fun _ => true },
    fun _ => ⟨rfl, rfl⟩, fun _ _ => ⟨rfl, rfl, rfl⟩, by decide, by decide, fun _ _ => (by decide : (7 : Nat) ≠ 0), Or.inl rfl⟩
+
+/-! ## the concatenations `strncat_s` / `wcsncat_s`: the overlap is detected wherever it is met
+
+dest holds a string of length `dl < dmax`.  The operands meet in one of three ways: src lies inside the dest string (its
+terminator included) — found while `findEnd` scans dest, or at the first test of the copy loop; src lies in the room
+behind the string and the characters appended reach it; the source (at or below dest) runs into dest.  In each case
+ESOVRLP, one handler call, dest cleared, nothing outside dest touched. -/
+
+/-- **strncat_s detects every overlap** -/
+theorem strncat_s_overlap (cfg : Cfg) (dest dmax src slen dl : Nat) (st : St)
+    (hall : ∀ a, st.mapped a = true ∧ st.rd a = true)
+    (hd : dest ≠ 0) (hs : src ≠ 0) (hpos : 0 < dmax) (hle : dmax ≤ RSIZE_MAX_STR)
+    (hslen : 0 < slen) (hslenle : slen ≤ RSIZE_MAX_STR) (hrw : RW st dest dmax)
+    (hdl : dl < dmax) (hdnz : ∀ j, j < dl → st.data (dest+j) ≠ 0) (hdnul : st.data (dest+dl) = 0)
+    (hov : (dest < src ∧ src ≤ dest + dl) ∨
+      (dest + dl < src ∧ src < dest + dmax ∧ src - (dest + dl) ≤ slen ∧
+        ∀ j, j < src - (dest + dl) → st.data (src + j) ≠ 0) ∨
+      (src ≤ dest ∧ dest - src < dmax - dl ∧ dest - src ≤ slen ∧ ∀ j, j < dest - src → st.data (src + j) ≠ 0)) :
+    ∃ st', exec (strncat_s cfg dest dmax src slen none none) st = .ok (ESOVRLP, st') ∧ OvrlpPost cfg dest dmax st st' :=
+  strncatG_overlap _ cfg dest dmax src slen dl st hall hd hs hpos hle hslen hslenle hrw hdl hdnz hdnul hov
+
+/-- **wcsncat_s detects every overlap** -/
+theorem wcsncat_s_overlap (cfg : Cfg) (dest dmax src slen dl : Nat) (st : St)
+    (hall : ∀ a, st.mapped a = true ∧ st.rd a = true)
+    (hd : dest ≠ 0) (hs : src ≠ 0) (hpos : 0 < dmax) (hle : dmax ≤ RSIZE_MAX_WSTR)
+    (hslen : 0 < slen) (hslenle : slen ≤ RSIZE_MAX_WSTR) (hrw : RW st dest dmax)
+    (hdl : dl < dmax) (hdnz : ∀ j, j < dl → st.data (dest+j) ≠ 0) (hdnul : st.data (dest+dl) = 0)
+    (hov : (dest < src ∧ src ≤ dest + dl) ∨
+      (dest + dl < src ∧ src < dest + dmax ∧ src - (dest + dl) ≤ slen ∧
+        ∀ j, j < src - (dest + dl) → st.data (src + j) ≠ 0) ∨
+      (src ≤ dest ∧ dest - src < dmax - dl ∧ dest - src ≤ slen ∧ ∀ j, j < dest - src → st.data (src + j) ≠ 0)) :
+    ∃ st', exec (wcsncat_s cfg dest dmax src slen none none) st = .ok (ESOVRLP, st') ∧ OvrlpPost cfg dest dmax st st' := by
+  rw [wcsncat_s_eq cfg dest dmax src slen hle hslenle (by omega)]
+  exact strncatG_overlap _ cfg dest dmax src slen dl st hall hd hs hpos hle hslen hslenle hrw hdl hdnz hdnul hov
+
+/-- non-vacuity: `strncat_s(a, 8, a+1, 3)` with `a = "xyz"` (dl = 3): src inside the dest string -/
+example : ∃ st : St, (∀ a, st.mapped a = true ∧ st.rd a = true) ∧ RW st 100 8 ∧
+    (∀ j, j < 3 → st.data (100 + j) ≠ 0) ∧ st.data (100 + 3) = 0 ∧ ((100 : Nat) < 101 ∧ 101 ≤ 100 + 3) :=
+  ⟨{ data := fun a => if a < 103 then 7 else 0, mapped := fun _ => true, rd := fun _ => true, wr := fun _ => true },
+   fun _ => ⟨rfl, rfl⟩, fun _ _ => ⟨rfl, rfl, rfl⟩,
+   fun j hj => by
+     have h : 100 + j < 103 := by omega
+     simp [h],
+   by decide, by decide⟩
 
 end SafeC.Props.C07
